@@ -95,6 +95,10 @@ def gen_attrs(rng, rich: float = 0.5) -> dict:
         a['comm'] = [rng.choice(['no-export', 'no-advertise', 'blackhole', [65000, 1], [0, 0], [65535, 65535], [rng.randint(0, 65535), rng.randint(0, 65535)]]) for _ in range(rng.randint(1, 4))]
     if rng.chance(rich * 0.5):
         a['ext'] = rng.sample(['target:65000:1', 'origin:65000:2', 'target:1.2.3.4:5', 'target:4200000000:5', '0x0002fde800000007'], rng.randint(1, 3))
+        f = rng.fork('ext-boundary')  # (a side stream: the draws of the plans generated so far stay what they were)
+        if f.chance(0.4):
+            # the last 2-octet AS and the first 4-octet one (RFC 4360 type 0x00 with a 4-octet value, RFC 5668 type 0x02 with a 2-octet one)
+            a['ext'][f.randint(0, len(a['ext']) - 1)] = f.choice(['target:65535:100000', 'origin:65535:7', 'target:65536:5', 'origin:65536:65535', 'target:0:4294967295', 'target:65535:0'])
     if rng.chance(rich * 0.5):
         a['large'] = [[rng.choice([65000, 4200000000, 0]), rng.randint(0, 4294967295), rng.choice([0, 1, 4294967295])] for _ in range(rng.randint(1, 3))]
     if rng.chance(rich * 0.3):
